@@ -1,8 +1,440 @@
-//! C10 (stub, filled in below)
-use crate::corpus::Corpus;
+//! C10 — assembly is a deterministic function of its inputs. Every job of a
+//! simulated run (several jobs on 1–4 threads, simulator-chosen hash keys,
+//! I/O-granular interleaving, server reuse, name collisions, clock script)
+//! must produce the record the same job produces alone in the canonical
+//! environment (fresh thread, keys = 0, fresh server, clock t0).
+
+use crate::cmdline;
+use crate::corpus::{self, Corpus};
+use crate::job::{Group, Job, Outcome, Record, Spec};
+use crate::mutate;
+use crate::plan::{keys_to_hex, PlanResult, SimPlan, ThreadPlan};
+use crate::prng::{digest128, hex128, Rng};
 use crate::replay::{Replay, Violation};
 use crate::worker::Ctx;
-pub fn run(_ctx: &mut Ctx, _c: &Corpus) -> Vec<Replay> { vec![] }
-pub fn classify(_r: &Replay) -> Vec<Violation> { vec![] }
-pub fn run_proc(_ctx: &mut Ctx, _c: &Corpus, _verif: &str) -> Vec<Replay> { vec![] }
-pub fn classify_proc(_r: &Replay, _verif: &str) -> Vec<Violation> { vec![] }
+use std::collections::BTreeMap;
+
+pub const POOL: usize = 6000;
+
+/// A generated program with many symbols in several scopes, several
+/// instructions and (optionally) several errors: order leaks show up in the
+/// symbol listings, annotated listings and diagnostics.
+pub fn symbol_program(rng: &mut Rng) -> Vec<u8> {
+    let mut s = String::new();
+    s.push_str("#ruledef\n{\n    ld {x: u8} => 0x10 @ x\n    jmp {a: u16} => 0x20 @ a\n    nop => 0x00\n    blk {a: u16}, {b: u8} => asm {\n        first:\n        jmp {a}\n        second:\n        ld {b}\n        jmp first\n        jmp second\n    }\n}\n\n");
+    let nglob = rng.range(2, 7);
+    let names = ["alpha", "beta", "gamma", "delta", "eps", "zeta", "eta", "theta"];
+    for g in 0..nglob {
+        s.push_str(&format!("{}:\n", names[g]));
+        s.push_str(&format!("    ld {}\n", g * 3 + 1));
+        for l in 0..rng.range(0, 4) {
+            s.push_str(&format!(".{}{}:\n", ["loop", "next", "done", "skip"][l % 4], l));
+            s.push_str(&format!("    jmp {}\n", names[rng.below(nglob)]));
+            if rng.chance(1, 3) {
+                s.push_str(&format!("..inner{} = {}\n", l, l + 40));
+            }
+        }
+        if rng.chance(1, 2) {
+            s.push_str(&format!("{}_const = {} * 3\n", names[g], g + 2));
+        }
+        if rng.chance(1, 3) {
+            s.push_str(&format!("    blk {}, {}\n", names[rng.below(nglob)], g + 1));
+        }
+    }
+    if rng.chance(1, 3) {
+        // several independent errors
+        for _ in 0..rng.range(2, 4) {
+            s.push_str(match rng.below(5) {
+                0 => "    bogus 1, 2\n",
+                1 => "    ld undefined_symbol\n",
+                2 => "    jmp another_missing\n",
+                3 => "    ld 0x1ff\n",
+                _ => "    nop nop\n",
+            });
+        }
+    }
+    s.into_bytes()
+}
+
+/// Job `k` of the pool for this seed: a pure function of (seed, k).
+pub fn pool_job(seed: u64, k: usize, c: &Corpus) -> Job {
+    let mut rng = Rng::new(seed).fork_n("c10-pool", k as u64);
+    let kind = rng.below(100);
+    if kind < 35 {
+        // corpus root with its own command line, random knobs
+        let ridx = rng.below(c.roots.len());
+        let mut job = corpus::corpus_job(c, ridx);
+        if let Some(spec) = job.spec.as_mut() {
+            cmdline::draw_knobs(&mut rng, spec);
+            if rng.chance(1, 2) {
+                let f = *rng.pick(&["symbols", "mesen-mlb", "annotated", "addrspan", "tcgame", "hexdump"]);
+                spec.groups.push(Group { format: Some(f.to_string()), out: Some(format!("extra.{}", if f == "mesen-mlb" { "mlb" } else { "txt" })), print: rng.chance(1, 4) });
+            }
+            job.argv = spec.render();
+        }
+        job
+    } else if kind < 55 {
+        // generated command line (several unknown parameters, defines, groups)
+        crate::c03::draw_job(&mut rng.fork("cmd"), c)
+    } else if kind < 80 {
+        // generated multi-symbol program
+        let text = symbol_program(&mut rng);
+        let mut disk = crate::disk::Disk::new(corpus::PROJ);
+        disk.add_file("prog.asm", text);
+        let mut spec = Spec::simple("prog.asm");
+        spec.groups.clear();
+        for _ in 0..rng.range(1, 3) {
+            let f = *rng.pick(&["symbols", "mesen-mlb", "annotated", "annotatedbin", "addrspan", "tcgame", "binary", "intelhex"]);
+            let n = spec.groups.len();
+            spec.groups.push(Group { format: Some(f.to_string()), out: if rng.chance(2, 3) { Some(format!("out{}.txt", n)) } else { None }, print: rng.chance(1, 5) });
+        }
+        for _ in 0..rng.below(3) {
+            spec.defines.push(format!("{}={}", rng.pick(&["alpha_const", "beta_const", "UNUSED1", "UNUSED2", "zeta_const"]), rng.below(9)));
+        }
+        cmdline::draw_knobs(&mut rng, &mut spec);
+        Job::from_spec(&format!("symprog:{}", k), disk, spec)
+    } else {
+        // mutant (diagnostics in odd places)
+        let mut j = crate::c03::draw_job(&mut rng.fork("mut"), c);
+        if !j.name.starts_with("mutant") {
+            let ridx = rng.below(c.roots.len());
+            j = corpus::corpus_job(c, ridx);
+            let (ii, root) = &c.roots[ridx];
+            if let Some(t) = c.images[*ii].text_of(root) {
+                let m = mutate::draw(&mut rng, t, &c.texts);
+                j.disk.add_file(root, mutate::apply(t, &m));
+                j.name = format!("mutant:{}/{}:{:?}", c.images[*ii].label, root, m);
+            }
+        }
+        j
+    }
+}
+
+/// What must be identical across environments.
+pub fn fields(rec: &Record) -> Vec<(String, String)> {
+    let mut f = Vec::new();
+    f.push(("outcome".to_string(), format!("{:?}", rec.outcome)));
+    f.push(("stdout".to_string(), String::from_utf8_lossy(&rec.stdout).to_string()));
+    f.push(("stderr".to_string(), String::from_utf8_lossy(&rec.stderr).to_string()));
+    let w: Vec<String> = rec.writes.iter().map(|w| format!("{}|{}|{}", w.spelling, hex128(digest128(&w.data)), w.complete)).collect();
+    f.push(("writes".to_string(), format!("{:?}", w)));
+    f.push(("lib.state".to_string(), format!("ran={} panic={:?} error={} output={} report_errors={} iterations={:?} bits={}", rec.lib.ran, rec.lib.panic, rec.lib.error, rec.lib.has_output, rec.lib.report_has_errors, rec.lib.iterations, rec.lib.bits_len)));
+    for (name, d) in &rec.lib.formats {
+        f.push((format!("format:{}", name), d.clone()));
+    }
+    f.push(("lib.diagnostics".to_string(), rec.lib.diag_plain.clone()));
+    f.push(("lib.diagnostics-colour".to_string(), rec.lib.diag_color_digest.clone()));
+    f
+}
+
+pub fn compare(job: &Job, reference: &Record, got: &Record, env: &str) -> Vec<Violation> {
+    let mut v = Vec::new();
+    let a = fields(reference);
+    let b = fields(got);
+    let bm: BTreeMap<&String, &String> = b.iter().map(|(k, x)| (k, x)).collect();
+    for (k, x) in &a {
+        match bm.get(k) {
+            Some(y) if *y == x => {}
+            other => {
+                let class_field = if k.starts_with("format:") { "format".to_string() } else { k.clone() };
+                v.push(Violation::new(
+                    &format!("divergence:{}", class_field),
+                    format!("job {} argv={:?}: `{}` differs from the canonical environment under [{}]\n--- canonical\n{}\n--- this environment\n{}", job.name, job.argv, k, env, crate::orch::truncate(x, 700), crate::orch::truncate(other.map(|s| s.as_str()).unwrap_or("<absent>"), 700)),
+                ));
+                break;
+            }
+        }
+    }
+    if a.len() != b.len() && v.is_empty() {
+        v.push(Violation::new("divergence:shape", format!("job {}: record shapes differ", job.name)));
+    }
+    v
+}
+
+pub fn sensitive_items(job: &Job, rec: &Record) -> usize {
+    let params: usize = job.argv.iter().map(|a| a.matches(',').count()).sum();
+    let defines = job.argv.iter().filter(|a| *a == "-d").count();
+    rec.lib.symbol_count + rec.error_lines() + params + defines
+}
+
+fn reference_plan(job: &Job) -> SimPlan {
+    SimPlan::single(job.clone(), vec![], &[0u8; 16], true, true)
+}
+
+pub fn build_plan(rng: &mut Rng, seed: u64, c: &Corpus) -> SimPlan {
+    let n_jobs = *rng.pick(&[3, 3, 4, 4, 5, 6, 8, 10]);
+    let mut jobs: Vec<Job> = Vec::new();
+    while jobs.len() < n_jobs {
+        let k = rng.below(POOL);
+        let job = pool_job(seed, k, c);
+        // collision variants
+        if !jobs.is_empty() && rng.chance(1, 5) {
+            let prev = jobs[jobs.len() - 1].clone();
+            if let (Some(ps), Some(js)) = (&prev.spec, &job.spec) {
+                if ps.roots.len() == 1 && js.roots.len() == 1 {
+                    let mut variant = prev.clone();
+                    if rng.chance(1, 2) {
+                        // same names, different content
+                        if let Some(crate::disk::Node::File(d)) = job.disk.nodes.get(&format!("{}/{}", corpus::PROJ, js.roots[0])) {
+                            variant.disk.add_file(&ps.roots[0], d.clone());
+                            variant.name = format!("collision-same-name({} <- {})", prev.name, job.name);
+                            jobs.push(variant);
+                            continue;
+                        }
+                    } else if let Some(crate::disk::Node::File(d)) = prev.disk.nodes.get(&format!("{}/{}", corpus::PROJ, ps.roots[0])) {
+                        // same content under a different name
+                        let new_root = format!("renamed_{}", ps.roots[0].replace('/', "_"));
+                        variant.disk.add_file(&new_root, d.clone());
+                        let mut spec = ps.clone();
+                        spec.roots = vec![new_root];
+                        variant.argv = spec.render();
+                        variant.spec = Some(spec);
+                        variant.name = format!("collision-renamed({})", prev.name);
+                        jobs.push(variant);
+                        continue;
+                    }
+                }
+            }
+        }
+        // the same job several times in one run
+        if !jobs.is_empty() && rng.chance(1, 6) {
+            let again = jobs[rng.below(jobs.len())].clone();
+            jobs.push(again);
+            continue;
+        }
+        jobs.push(job);
+    }
+    let nthreads = *rng.pick(&[1, 2, 2, 3, 4]);
+    let mut threads: Vec<ThreadPlan> = (0..nthreads)
+        .map(|_| {
+            let k = match rng.below(6) {
+                0 => [0u8; 16],
+                1 => [0xffu8; 16],
+                _ => rng.bytes16(),
+            };
+            ThreadPlan { keys: keys_to_hex(&k), jobs: vec![], reuse: vec![] }
+        })
+        .collect();
+    for j in 0..jobs.len() {
+        let t = rng.below(nthreads);
+        threads[t].jobs.push(j);
+        threads[t].reuse.push(rng.chance(1, 3));
+    }
+    threads.retain(|t| !t.jobs.is_empty());
+    let mut clock = Vec::new();
+    if rng.chance(1, 2) {
+        let mut at = 0u64;
+        for _ in 0..rng.range(1, 5) {
+            at += rng.below(40) as u64;
+            let sec = *rng.pick(&[0i64, 1, 86399, 951782400, 2147483647, 2147483648, 4102444800, 253402300800, 1700000000]);
+            clock.push((at, sec, rng.below(1_000_000_000) as i64));
+        }
+    }
+    SimPlan { faults: vec![vec![]; jobs.len()], jobs, threads, schedule: vec![], sched_seed: Some(rng.next()), switch_16: *rng.pick(&[0, 2, 4, 8, 16]), clock, lib_pass: true, all_formats: true }
+}
+
+pub fn check_plan(plan: &SimPlan, res: &PlanResult, refs: &BTreeMap<String, Record>) -> Vec<Violation> {
+    let mut v = Vec::new();
+    for (i, jr) in res.runs.iter().enumerate() {
+        let job = &plan.jobs[jr.job];
+        let jd = hex128(job.digest());
+        let reference = match refs.get(&jd) {
+            Some(r) => r,
+            None => continue,
+        };
+        if matches!(reference.outcome, Outcome::Panic(_)) || reference.lib.panic.is_some() {
+            continue; // C03's business
+        }
+        let env = format!("thread {} keys {} queue position {} reused-server {} interleaved {} clock-script {}", jr.thread, plan.threads.get(jr.thread).map(|t| t.keys.as_str()).unwrap_or("?"), jr.pos, jr.reused_server, res.interleaved(i), !plan.clock.is_empty());
+        v.extend(compare(job, reference, &jr.record, &env));
+    }
+    v
+}
+
+pub fn run(ctx: &mut Ctx, c: &Corpus) -> Vec<Replay> {
+    let mut rng = Rng::new(ctx.run_seed);
+    let plan = build_plan(&mut rng, ctx.seed, c);
+    let mut out = Vec::new();
+
+    // reference records, one per distinct job of this run
+    let mut refs: BTreeMap<String, Record> = BTreeMap::new();
+    for job in &plan.jobs {
+        let jd = hex128(job.digest());
+        if refs.contains_key(&jd) {
+            continue;
+        }
+        let res = ctx.exec(&reference_plan(job), "C10");
+        ctx.stats.inc("reference_runs");
+        refs.insert(jd, res.runs[0].record.clone());
+    }
+
+    let res = ctx.exec(&plan, "C10");
+    ctx.stats.inc("simulated_runs");
+    ctx.stats.note("interleavings", res.schedule_digest());
+    ctx.stats.add("scheduling_points", res.points);
+    ctx.stats.add("thread_switches", res.switches);
+    for cn in &res.canaries {
+        ctx.stats.note("canary_permutations", cn.clone());
+    }
+    ctx.stats.note("clock_values", res.clock_canary.to_string());
+    ctx.stats.max("max_clock_s", res.clock_canary);
+    for t in &plan.threads {
+        ctx.stats.note("key_pairs", t.keys.clone());
+    }
+    for (i, jr) in res.runs.iter().enumerate() {
+        let job = &plan.jobs[jr.job];
+        let jd = hex128(job.digest());
+        ctx.stats.inc("evaluations");
+        let reference = &refs[&jd];
+        if matches!(reference.outcome, Outcome::Panic(_)) || reference.lib.panic.is_some() {
+            ctx.stats.inc("skipped_reference_crashes");
+            continue;
+        }
+        let keys = &plan.threads[jr.thread].keys;
+        let inter = res.interleaved(i);
+        let collision = job.name.starts_with("collision");
+        let mut dims = 0;
+        if keys != "00000000000000000000000000000000" {
+            ctx.stats.inc("dim_keys");
+            dims += 1;
+        }
+        if jr.pos > 0 {
+            ctx.stats.inc("dim_history");
+            dims += 1;
+        }
+        if inter {
+            ctx.stats.inc("dim_interleaved");
+            dims += 1;
+        }
+        if jr.reused_server {
+            ctx.stats.inc("dim_server_reuse");
+            dims += 1;
+        }
+        if collision {
+            ctx.stats.inc("dim_name_collision");
+        }
+        if !plan.clock.is_empty() {
+            ctx.stats.inc("dim_clock");
+            dims += 1;
+        }
+        if plan.threads.len() > 1 {
+            ctx.stats.inc("dim_multi_thread");
+        }
+        let sens = sensitive_items(job, reference);
+        if sens >= 2 && dims >= 1 {
+            let envd = hex128(digest128(format!("{}|{}|{}|{}|{}|{}", keys, jr.thread, jr.pos, jr.reused_server, inter, !plan.clock.is_empty()).as_bytes()));
+            ctx.stats.note("nontrivial", format!("{}:{}", &jd[..16], &envd[..12]));
+        }
+        if ctx.stats.samples.len() < 2 && sens >= 2 && dims >= 2 {
+            ctx.stats.sample(
+                serde_json::json!({"job": job.name, "argv": job.argv, "thread": jr.thread, "keys": keys, "queue_position": jr.pos, "reused_server": jr.reused_server, "interleaved": inter,
+                    "threads_in_run": plan.threads.len(), "jobs_in_run": plan.jobs.len(), "clock_script": plan.clock, "sensitive_items": sens, "outcome": format!("{:?}", jr.record.outcome), "schedule_prefix": res.decisions.iter().take(24).collect::<Vec<_>>()}),
+                4,
+            );
+        }
+    }
+    let viol = check_plan(&plan, &res, &refs);
+    // one replay per class per run
+    let mut seen = std::collections::BTreeSet::new();
+    for v in viol {
+        if seen.insert(v.class.clone()) {
+            let mut p = plan.clone();
+            // record the decisions actually taken so that the file replays
+            // without the generator
+            p.schedule = res.decisions.clone();
+            p.sched_seed = None;
+            out.push(ctx.replay("C10", v, p));
+        }
+    }
+    out
+}
+
+pub fn classify(r: &Replay) -> Vec<Violation> {
+    let mut refs: BTreeMap<String, Record> = BTreeMap::new();
+    for job in &r.plan.jobs {
+        let jd = hex128(job.digest());
+        if refs.contains_key(&jd) {
+            continue;
+        }
+        let res = crate::plan::run_plan(&reference_plan(job));
+        refs.insert(jd, res.runs[0].record.clone());
+    }
+    let res = crate::plan::run_plan(&r.plan);
+    check_plan(&r.plan, &res, &refs)
+}
+
+// ===================================================================== Tier B
+
+use crate::procsim::{proc_replay, ProcPlan, ProcRecord};
+
+fn proc_fields(rec: &ProcRecord) -> Vec<(String, String)> {
+    vec![
+        ("exit".to_string(), format!("{:?}/{:?}", rec.exit, rec.signal)),
+        ("stdout".to_string(), String::from_utf8_lossy(&rec.stdout).to_string()),
+        ("stderr".to_string(), String::from_utf8_lossy(&rec.stderr).to_string()),
+        ("files".to_string(), format!("{:?}", rec.changed)),
+    ]
+}
+
+fn compare_proc(job: &Job, reference: &ProcRecord, got: &ProcRecord, env: &str) -> Vec<Violation> {
+    let a = proc_fields(reference);
+    let b = proc_fields(got);
+    for ((k, x), (_, y)) in a.iter().zip(b.iter()) {
+        if x != y {
+            return vec![Violation::new(&format!("divergence:{}", k), format!("job {} argv={:?}: `{}` of the real binary differs between the canonical process and [{}]\n--- canonical\n{}\n--- this environment\n{}", job.name, job.argv, k, env, crate::orch::truncate(x, 700), crate::orch::truncate(y, 700)))];
+        }
+    }
+    vec![]
+}
+
+pub fn run_proc(ctx: &mut Ctx, c: &Corpus, verif: &str) -> Vec<Replay> {
+    let mut rng = Rng::new(ctx.run_seed);
+    let job = pool_job(ctx.seed, rng.below(POOL), c);
+    let mut out = Vec::new();
+    let base_plan = ProcPlan { job: job.clone(), faults: vec![], keys: "00000000000000000000000000000000".to_string(), clock: None, scratch_tag: String::new() };
+    let base = ctx.exec_proc(&base_plan, "C10", verif);
+    if let Some(why) = &base.skipped {
+        ctx.stats.inc(&format!("skipped:{}", why));
+        return out;
+    }
+    if base.signal.is_some() || !matches!(base.exit, Some(0) | Some(1)) {
+        ctx.stats.inc("skipped_reference_crashes");
+        return out;
+    }
+    let jd = hex128(job.digest());
+    for _ in 0..4 {
+        let keys = keys_to_hex(&rng.bytes16());
+        let clock = if rng.chance(1, 2) { Some(*rng.pick(&[0i64, 2147483648, 4102444800, 253402300800])) } else { None };
+        let tag = if rng.chance(1, 2) { format!("-{}", "x".repeat(rng.range(1, 40))) } else { String::new() };
+        let plan = ProcPlan { job: job.clone(), faults: vec![], keys: keys.clone(), clock, scratch_tag: tag.clone() };
+        let rec = ctx.exec_proc(&plan, "C10", verif);
+        ctx.stats.inc("evaluations");
+        ctx.stats.note("key_pairs", keys.clone());
+        let sens = job.argv.iter().map(|a| a.matches(',').count()).sum::<usize>() + job.argv.iter().filter(|a| *a == "-d").count() + base.error_lines() + base.changed.len();
+        if sens >= 2 {
+            ctx.stats.note("nontrivial", format!("p:{}:{}", &jd[..16], &keys[..12]));
+        }
+        let env = format!("fresh process, keys {}, clock {:?}, scratch suffix {:?}", keys, clock, tag);
+        for v in compare_proc(&job, &base, &rec, &env) {
+            out.push(proc_replay("C10", ctx.seed, ctx.run, v, plan.clone()));
+        }
+        if ctx.stats.samples.len() < 1 {
+            ctx.stats.sample(serde_json::json!({"tier": "proc", "job": job.name, "argv": job.argv, "keys": keys, "clock": clock, "scratch_suffix_len": tag.len(), "exit": rec.exit}), 4);
+        }
+    }
+    out
+}
+
+pub fn classify_proc(r: &Replay, verif: &str) -> Vec<Violation> {
+    let plan = match &r.proc {
+        Some(p) => p,
+        None => return vec![],
+    };
+    let mut bp = plan.clone();
+    bp.keys = "00000000000000000000000000000000".to_string();
+    bp.clock = None;
+    bp.scratch_tag = String::new();
+    let base = crate::procsim::run_proc(&bp, verif);
+    let rec = crate::procsim::run_proc(plan, verif);
+    compare_proc(&plan.job, &base, &rec, "replay")
+}
